@@ -14,13 +14,17 @@ EXPLANATION = (
     "Connected, and the Context accessor it uses tests the Connected state; (4) F1 for every reply writer and the 503 writers take "
     "Content-Length and body from the same byte slice; (5) the SOCKS4 verdict tables of writer (0->90) and reader (90->0) agree with the "
     "connector's comparison; (6) h11c_connect returns Ok only on the code==200 edge."
-    ' P-reply: rule P over every ContextCallback::on_connect / on_error implementation and its callees (a panic while the reply is written means no reply).')
+    ' P-reply: rule P over every ContextCallback::on_connect / on_error implementation and its callees (a panic while the reply is written means no reply).'
+    ' reply-once: a helper of the SOCKS handshake does not report a failure (on_error) that its caller reports again for the returned Err.')
 RULE_TEXT = "instances = dominance queries, constructor sites, callback guards, writer functions, code tables"
 TRUSTED = ["tokio BufWriter flush semantics", "upstream proxies implement their protocols"]
 NOT_DECIDED = ["the client's view of timing", "behaviour of real upstream proxies"]
 
 
 def run(chk, prog):
+    # exactly one failure reply: a helper does not report a failure its caller reports again
+    from .c16 import rule_single_terminal
+    rule_single_terminal(chk, prog, "reply-once")
     # P-reply: the code that writes the success / failure reply cannot panic (panic = abort: the client would get no reply at all).
     # Scope: every ContextCallback::on_connect / on_error implementation and what it calls.
     from . import panics
